@@ -46,6 +46,8 @@ def _apply(s, op, rng=None):
         s.append(**kw)
     elif o == "kill":
         s["alive"][op["i"]] = False
+    elif o == "killmany":
+        s["alive"][np.array(op["is"], dtype=int)] = False
     elif o == "compactify":
         s.compactify()
     elif o == "incage":
@@ -119,7 +121,39 @@ def random_history(sc):
     return ev
 
 
-DRIVERS = {"history": ("harness.checks.c05", "random_history", "PstateTrace", FAMILY)}
+def bulk_history(sc):
+    """Code -> spec at scale: hundreds to thousands of particles appended and killed at once (block sizes, integer widths, re-allocation)"""
+    rng = random.Random(sc["seed"])
+    s = _mk_state()
+    ev = [dict(ev="setup")]
+    for it in range(sc["len"]):
+        n = len(s)
+        r = rng.random()
+        if n == 0 or r < 0.3:
+            k = rng.choice([257, 300, 520, 900, 1100]) if (it == 0 or rng.random() < 0.6) else rng.randrange(1, 40)
+            mode = rng.choice(["default", "scalar", "given"])
+            ages = [0] * k if mode == "default" else [7] * k if mode == "scalar" else [rng.randrange(0, 50) for _ in range(k)]
+            op, e = dict(op="append", k=k, mode=mode, ages=ages), dict(ev="append", k=k, ages=ages)
+        elif r < 0.55:
+            idx = sorted(rng.sample(range(n), max(1, int(n * rng.choice([0.02, 0.3, 0.6, 1.0])))))
+            op, e = dict(op="killmany", **{"is": idx}), dict(ev="killmany", **{"is": idx})
+        elif r < 0.75:
+            op, e = dict(op="compactify"), dict(ev="compactify")
+        elif r < 0.83:
+            op, e = dict(op="copyage"), dict(ev="copyage")
+        elif r < 0.9:
+            i = rng.randrange(n)
+            op, e = dict(op="bump", i=i), dict(ev="bump", i=i)
+        else:
+            op, e = dict(op="incage"), dict(ev="incage")
+        _apply(s, op)
+        e["post"] = _proj(s)
+        ev.append(e)
+    return ev
+
+
+DRIVERS = {"history": ("harness.checks.c05", "random_history", "PstateTrace", FAMILY),
+           "bulk-history": ("harness.checks.c05", "bulk_history", "PstateTrace", FAMILY)}
 
 
 def run(tier, seed):
@@ -160,10 +194,14 @@ def run(tier, seed):
     scs = [dict(seed=seed * 1000 + i, len=rng_len, big=(i % 3 == 0), cls=dict(big=(i % 3 == 0))) for i, rng_len in enumerate([40] * (400 if thorough else 120))]
     traces = pmap("harness.checks.c05", "random_history", scs)
     rep.add_tv("history", "PstateTrace", scs, traces, tlc.validate_traces("PstateTrace", traces), family=FAMILY)
+    bs = [dict(seed=seed * 77 + i, len=14, cls=dict(bulk=True)) for i in range(40 if thorough else 10)]
+    bt = pmap("harness.checks.c05", "bulk_history", bs)
+    rep.add_tv("bulk-history", "PstateTrace", bs, bt, tlc.validate_traces("PstateTrace", bt, batch_events=60, timeout=1800), family=FAMILY)
     rep.nontrivial = len({json.dumps([{a: b for a, b in o.items() if a != "post"} for o in h]) for h in allb
                           if any(o["op"] == "compactify" for o in h) and any(o["op"] == "kill" for o in h)})
     rep.rule = ("behaviours = operation sequences over append(1-2; defaulted/scalar/array)/kill/compactify/item update generated by TLC "
-                "(all up to the GEN depth, simulated to depth 16); non-trivial = distinct sequences containing a kill and a compactify")
+                "(all up to the GEN depth, simulated to depth 16); random histories recorded from the real State, ten of them with 257-1100 particles appended "
+                "and up to all of them killed at once; non-trivial = distinct sequences containing a kill and a compactify")
     rep.assumptions = ["abstract operations are mapped to State calls the way LADiM's own modules use it (append(**arrays), "
                        "state['alive'][i] = False, compactify(), state[var] = array)"]
     return rep
